@@ -20,7 +20,7 @@ for p in mutants/*.diff; do
 done
 for d in seeded/*/; do
   id=$(basename "$d"); prop=${id%%-*}
-  run "$d/patch.diff" "$prop"
+  if [ -f "$d/patch-rebased.diff" ]; then run "$d/patch-rebased.diff" "$prop"; else run "$d/patch.diff" "$prop"; fi
 done
 find replays -name "*.json" -delete 2>/dev/null
 exit $bad
